@@ -234,6 +234,7 @@ def run():
             res.violation(f"format_constraint_evaluation({empty!r}) raised {type(e).__name__}; an absent/empty expression counts as fulfilled", {"expr": empty})
         res.count("evaluations")
     trace_validation(res, work, 3000 if thorough else 500)
+    E.unit_test_suite_traces(res, work, "fc")
     res.coverage["exhaustive"] = True
     res.coverage["rule"] = (f"every FC-only program <= {n} leaves over keys 901-903 (repetition allowed) x every truth assignment; evaluated through "
                             "format_constraint_evaluation (CER-based evaluator with messages; every 5th also with method-based sync/async evaluators "
